@@ -2,7 +2,7 @@
 from . import twin
 
 OWNED = ["C10.", "C04.cons_jac", "C04.lag_hess", "C04.cons", "C04.obj_grad", "C04.obj"]
-REQUIRED = ["C10.same_solver.trial_steps_identical", "C10.same_solver.same_solution", "C10.same_solver.same_status", "C10.fresh_solver.trial_steps_identical", "C10.fresh_solver.same_solution", "C10.params_object_not_modified", "C10.same_solver.step_controller_starts_in_the_same_state", "C10.fresh_solver.step_controller_starts_in_the_same_state", "C10.real_controllers.same_trial_points_step_sizes_and_penalties", "C10.real_controllers.same_newton_iterates", "C10.real_controllers.same_solution", "C10.linear_solver_call_independent_of_history"]
+REQUIRED = ["C10.same_solver.trial_steps_identical", "C10.same_solver.same_solution", "C10.same_solver.same_status", "C10.fresh_solver.trial_steps_identical", "C10.fresh_solver.same_solution", "C10.params_object_not_modified", "C10.same_solver.step_controller_starts_in_the_same_state", "C10.fresh_solver.step_controller_starts_in_the_same_state", "C10.real_controllers.same_trial_points_step_sizes_and_penalties", "C10.real_controllers.same_newton_iterates", "C10.real_controllers.same_solution", "C10.linear_solver_call_independent_of_history", "C10.second_solve_starts_from_the_point_handed_in"]
 META = dict(
     functions_encoded=twin.FUNCTIONS,
     stubs=["real-controller composition: two solves with the real step controllers, Newton methods and PI controller; the oracle sits behind the public Params.step_solver hook and the second solve replays its outputs by call index; termination reduced to the iteration budget (the termination tests are covered by the L1 composition)", "three solves in ONE symbolic execution: A on a new Solver, B on the same Solver object, C on a fresh Solver afterwards; the step oracle of B and C replays the outputs A received, the user problem is the same uninterpreted functions"],
@@ -34,6 +34,8 @@ def tasks(tier):
     for fmt in ("coo", "csr", "csc"):
         t.append(dict(module="xform", fn="h_transform", shape=dict(vars=["boxed", "lower"], cons=["ge"], W=2, fmt=fmt, rounds=3, patterns_by_round=pbr), opts=dict(exp_window=(-7, 7))))
     t.append(dict(module="xform", fn="h_transform", shape=dict(vars=["boxed"], cons=["eqb"], W=1, fmt="coo", policy="memo", rounds=3), opts=dict(exp_window=(-4, 4))))
+    for pol, cons in (("DualNorm", ["eq0"]), ("Constant", [])):
+        t.append(dict(module="twin", fn="h_restart_buffer", shape=dict(K=1, policy=pol, vars=["boxed"] if cons else ["boxed", "lower"], cons=cons), opts=o))
     # linear-solver wrappers: what reaches the library depends on this solve's arguments only (no state kept
     # on the class or carried from system to system)
     for kind in ("LU", "GMRES", "MINRES"):
